@@ -658,9 +658,10 @@ def r166(P, rep):
 
 def run(P, rep, tier):
     cg = wrap(CG(P))
-    rep.explanation = ('Decides that every read-modify-write on an atomic lvalue is lowered to the compare-exchange retry loop (interpretation of to_assign on concrete trees for 3 lvalue shapes x 5 types), '
-                       'that the loop has the one shape that is correct, and that the CAS/XCHG primitives are emitted in the one form that is indivisible on x86-64 (term machine over the emitted templates, 10 object types), '
-                       'plus the header mapping. Linearizability under interleavings is a property of schedules and is not decided.')
+    rep.explanation = ('Decides that every read-modify-write on an atomic lvalue is lowered to the compare-exchange retry loop (interpretation of to_assign on concrete trees for 3 lvalue shapes x 7 types), '
+                       'that the loop has the one shape that is correct, and that the CAS/XCHG primitives are emitted in the one form that is indivisible on x86-64 (term machine over the emitted templates, 12 object types), '
+                       'plus the header mapping: the macros of include/stdatomic.h are evaluated under interference schedules, untyped on a 64-bit object (R16.5) and with C types on objects of every integer width and signedness, where the compare-exchange builtin refreshes exactly sizeof(object) bytes of the expected-value object (R16.8). '
+                       'float/double atomic objects are covered by R16.1 (rewrite) and R16.3/R16.4 (bit patterns moved between %xmm0 and the general register the instruction uses). Linearizability under interleavings is a property of schedules and is not decided.')
     rep.assumptions += ['x86-64: `lock cmpxchg` and `xchg` with a memory operand are indivisible (Intel SDM vol. 3 ch. 8)', 'children satisfy the register convention (induction)']
     r163(cg, rep)
     r161(P, rep)
